@@ -248,12 +248,13 @@ class Plugin:
             if r < 0.35:
                 allowed = rng.choice([["1", "2", "3"], ["0"], ["10", "-5", "7"], ["1", "abc"], [" 4 "]])
             elif r < 0.8:
-                rng_ = rng.choice([["0", "100"], ["-5", "5"], ["0", None], [None, "10"], ["", "10"], ["3", "3"], ["x", "5"], [None, None]])
+                rng_ = rng.choice([["0", "100"], ["-5", "5"], ["0", None], [None, "10"], ["", "10"], ["3", "3"], ["x", "5"], [None, None],
+                                   [None, "0"], ["0", "0"], ["-10", "0"]])
         elif pyt == "float":
             if r < 0.3:
                 allowed = rng.choice([["1.5", "2.5"], ["0"], ["1e3"]])
             elif r < 0.7:
-                rng_ = rng.choice([["0", "10.5"], ["-1.5", None], [None, "1e300"], ["0.0", "0.0"]])
+                rng_ = rng.choice([["0", "10.5"], ["-1.5", None], [None, "1e300"], ["0.0", "0.0"], ["0", None], [None, "0.0"]])
         elif pyt == "str":
             if r < 0.5:
                 allowed = rng.choice([["a", "b"], ["PLAYING", "STOPPED", "PAUSED_PLAYBACK"], [""], ["x", "X"]])
